@@ -38,7 +38,9 @@ def write_replay(ctx, name, obs):
     }
     reproduced = False
     native = None
-    for pat, fn in ctx.replayers.items():
+    # an obligation generated in a dependency phase (runner.DEPENDS) is replayed by that phase's replayers
+    replayers = getattr(ctx, 'phase_replayers', {}).get(getattr(ob, 'phase', 0), ctx.replayers)
+    for pat, fn in replayers.items():
         import fnmatch
         if fnmatch.fnmatchcase(name, pat):
             try:
